@@ -323,6 +323,7 @@ def problems():
     asyncio.run(main())
     out.extend(reused_wrappers())
     out.extend(traced_outcomes())
+    out.extend(chained_exceptions())
     return out
 
 
@@ -396,6 +397,76 @@ def traced_outcomes():
                 out.append(f"{label} coroutine that spawns a task: order {order}")
     asyncio.run(spawning())
     return out[:3]
+
+
+def chained_exceptions():
+    """An exception that passes through traced / wrap_async / asynchronous reaches the caller as the function left it: the
+    same object, with its explicit cause (`raise X from Y`), its implicit context (raised while handling Y) and its
+    __suppress_context__ flag - compared with the same function called undecorated."""
+    out = []
+    root = KeyError("root cause")
+
+    def chain_of(e):
+        return (type(e), e.args, e.__cause__, e.__context__, e.__suppress_context__)
+
+    def sync_from(tag):
+        raise ValueError(tag) from root
+
+    def sync_during(tag):
+        try:
+            raise root
+        except KeyError:
+            raise ValueError(tag)  # noqa: B904
+
+    def sync_plain(tag):
+        raise ValueError(tag)
+
+    async def async_from(tag):
+        raise ValueError(tag) from root
+
+    async def async_during(tag):
+        try:
+            raise root
+        except KeyError:
+            raise ValueError(tag)  # noqa: B904
+
+    async def prog():
+        decorators = [("wrap_async", wrap_async, False), ("asynchronous", asynchronous, False)]
+        if __debug__:
+            decorators += [("traced", traced, None)]
+        for f in (sync_from, sync_during, sync_plain, async_from, async_during):
+            is_async = asyncio.iscoroutinefunction(f)
+            try:
+                r = f("x")
+                if is_async:
+                    await r
+            except ValueError as e:
+                want = chain_of(e)
+            for name, deco, for_async in decorators:
+                if for_async is not None and for_async != is_async:
+                    continue
+                wrapped = deco(f)
+                for where in ("outside any scope", "inside a scope"):
+                    try:
+                        if where == "inside a scope":
+                            async with ctx.scope("root"):
+                                r = wrapped("x")
+                                if asyncio.iscoroutine(r) or asyncio.isfuture(r):
+                                    await r
+                        else:
+                            r = wrapped("x")
+                            if asyncio.iscoroutine(r) or asyncio.isfuture(r):
+                                await r
+                        out.append(f"{name}({f.__name__}) {where}: the function raised but the call returned")
+                    except ValueError as e:
+                        got = chain_of(e)
+                        if got != want:
+                            out.append(f"{name}({f.__name__}) {where}: the exception reaches the caller with (class, args, "
+                                       f"__cause__, __context__, __suppress_context__) = {got!r}, the function raised it with {want!r}")
+                    except BaseException as e:  # noqa
+                        out.append(f"{name}({f.__name__}) {where}: the call ended with {e!r}, not the function's exception")
+    asyncio.run(prog())
+    return out
 
 
 def reused_wrappers():
